@@ -107,7 +107,11 @@ pub fn brackets_balanced(src: &str) -> bool {
 }
 
 /// pinned invalid inputs (witnesses of known findings rooted in the full_moon parser)
-const PINNED_INVALID: [(&str, &str); 4] = [
+const PINNED_INVALID: [(&str, &str); 8] = [
+    ("Lua51", "\u{feff}local x = 1\n"),
+    ("Luau", "\u{feff}local   x = 1\nlocal y   = 2\n"),
+    ("Lua51", "local x = 1\n\u{feff}local y = 2\n"),
+    ("Lua51", "\u{0}local x = 1\n"),
     ("Luau", "export  X = A | B\n"),
     ("Luau", "local x = 1\ntype A = {\nlocal y = 2\n"),
     ("Luau", "type A = {\n"),
